@@ -565,6 +565,18 @@ class FuncVal:
         self.func = func
         self.closure = None
 
+    # a module-level function is one object however often its name is evaluated
+    def __eq__(self, other):
+        if self is other:
+            return True
+        return isinstance(other, FuncVal) and self.func is other.func and self.closure is None and other.closure is None and getattr(self.func, "parent", None) is None
+
+    def __ne__(self, other):
+        return not self.__eq__(other)
+
+    def __hash__(self):
+        return hash(id(self.func))
+
 
 class Builtin:
     def __init__(self, name):
@@ -2880,6 +2892,8 @@ class Interp:
             func_ = env.get("__func__")
             c_ = getattr(func_, "cls", None) if o_.name in ("self", "cls") else None
             m_ = self.proj.method(c_, pos[1]) if c_ is not None else (self._class_method(o_.kind, pos[1]) if o_.attrs else None)
+            if m_ is not None and any(isinstance(d, ast.Name) and d.id == "property" for d in m_.node.decorator_list):
+                return self.call_func(m_, [], {}, self_obj=o_, node=node)
             if m_ is not None:
                 return BoundMethod(o_, pos[1])
             # a name the class never binds (no method, no class constant, no `self.<name> = ...` anywhere along the MRO):
@@ -2986,6 +3000,8 @@ class Interp:
         elif isinstance(v, Sym):
             lst.append(Star(v))
         elif isinstance(v, (str,)):
+            lst.extend(list(v))
+        elif isinstance(v, HostIter) or isinstance(v, (set, frozenset, dict)):
             lst.extend(list(v))
         else:
             raise Unsupported("extend with %r" % (v,))
@@ -3389,6 +3405,12 @@ class Interp:
             return AStr([Rep(coll.over, coll.template, sep.literal() if sep.is_concrete() else sep.render())])
         if isinstance(coll, Opaque):
             return AStr([Rep(coll, None, sep.literal())])
+        if isinstance(coll, AStr) and coll.is_concrete():
+            coll = coll.literal()
+        if isinstance(coll, str):
+            coll = list(coll)                # the characters of a concrete string
+        if isinstance(coll, (set, frozenset)) and all(isinstance(x, str) for x in coll):
+            coll = sorted(coll)
         if isinstance(coll, (list, tuple)):
             parts = []
             for i, x in enumerate(coll):
